@@ -8,15 +8,15 @@ import SwcVerif.Refine.NodeBranch
 namespace C08
 open Branches Trav Gen.Algo Sub
 
-/-- **`Tree.get_tips` as translated returns exactly the childless nodes** (any table with equally long columns) -/
-theorem generated_tips_childless (ids pids : List Int) (hl : ids.length = pids.length) :
+/-- **`Tree.get_tips` as translated returns exactly the childless nodes** (any table with equally long columns and distinct ids) -/
+theorem generated_tips_childless (ids pids : List Int) (hl : ids.length = pids.length) (hd : ids.Nodup) :
     ∃ l, get_tips ids pids = some l ∧ ∀ j, j ∈ l ↔ j ∈ ids ∧ tableKids ids pids j = [] :=
-  ⟨_, RefineNodeBranch.getTips_refines ids pids, tips_eq_childless ids pids hl⟩
+  ⟨_, RefineNodeBranch.getTips_refines ids pids hd, tips_eq_childless ids pids hl⟩
 
 /-- on a tree: the translated `get_tips` returns the leaves of the rose (`tipsOf`), each once -/
 theorem generated_tips_eq_tipsOf (r : Rose) (pids : List Int) (h : C06.IsTree r pids) :
     ∃ l, get_tips (rangeI pids.length) pids = some l ∧ l.Nodup ∧ ∀ j, j ∈ l ↔ j ∈ tipsOf r := by
-  refine ⟨_, RefineNodeBranch.getTips_refines _ pids, ?_, ?_⟩
+  refine ⟨_, RefineNodeBranch.getTips_refines _ pids (Represent.rangeI_nodup _), ?_, ?_⟩
   · exact (Represent.rangeI_nodup _).filter _
   · intro j
     rw [tips_eq_childless _ pids (by simp [rangeI]) j, tipsOf_childless _ r h.1.1 j, h.2.1.mem_iff]
